@@ -976,6 +976,105 @@ theorem ops_exact_when_representable (a b c : Nat) (ha : FinBits a) (hb : FinBit
   · have := ((div_correct a b n1 n2 m1 m2 e1 e2 h1 h2 (nonzero_of_isZeroBits b n2 m2 e2 h2 hz)).1 (by rw [h, r1]; exact r2)).2
     rw [h, r1] at this; exact this
 
+/-! ## `rneQ x` is a value of the format nearest to `x`: no binary64 value (indeed no `± m · 2^e`, m < 2^53, e ≥ -1074) is closer -/
+
+theorem rneInt_nearest (r : ℚ) (z : ℤ) : |(rneInt r : ℚ) - r| ≤ |(z : ℚ) - r| := by
+  have h1 := Int.floor_le r
+  have h2 := Int.lt_floor_add_one r
+  -- distance of the rounded value: at most the fractional part and at most its complement
+  have hd : |(rneInt r : ℚ) - r| ≤ r - ⌊r⌋ ∧ |(rneInt r : ℚ) - r| ≤ 1 - (r - ⌊r⌋) := by
+    unfold rneInt
+    split
+    · constructor <;> (rw [abs_le]; constructor <;> linarith)
+    · split
+      · push_cast; constructor <;> (rw [abs_le]; constructor <;> linarith)
+      · have he : r - ⌊r⌋ = 1 / 2 := by linarith
+        split
+        · constructor <;> (rw [abs_le]; constructor <;> linarith)
+        · push_cast; constructor <;> (rw [abs_le]; constructor <;> linarith)
+  by_cases hz : z ≤ ⌊r⌋
+  · have : (z : ℚ) ≤ (⌊r⌋ : ℚ) := by exact_mod_cast hz
+    have : r - ⌊r⌋ ≤ |(z : ℚ) - r| := by rw [abs_sub_comm, abs_of_nonneg (by linarith)]; linarith
+    linarith [hd.1]
+  · have : ((⌊r⌋ + 1 : ℤ) : ℚ) ≤ (z : ℚ) := by exact_mod_cast (by omega : ⌊r⌋ + 1 ≤ z)
+    push_cast at this
+    have : 1 - (r - ⌊r⌋) ≤ |(z : ℚ) - r| := by rw [abs_of_nonneg (by linarith)]; linarith
+    linarith [hd.2]
+
+/-- nearest on the grid 2^(cexp x)·ℤ -/
+theorem rneQ_nearest_grid (x : ℚ) (hx : 0 < x) (z : ℤ) : |rneQ x - x| ≤ |(z : ℚ) * 2 ^ cexp x - x| := by
+  have hp := two_zpow_pos (cexp x)
+  rw [rneQ_pos x hx]
+  have e1 : (rneInt (x / 2 ^ cexp x) : ℚ) * 2 ^ cexp x - x = ((rneInt (x / 2 ^ cexp x) : ℚ) - x / 2 ^ cexp x) * 2 ^ cexp x := by
+    field_simp
+  have e2 : (z : ℚ) * 2 ^ cexp x - x = ((z : ℚ) - x / 2 ^ cexp x) * 2 ^ cexp x := by field_simp
+  rw [e1, e2, abs_mul, abs_mul, abs_of_pos hp]
+  exact mul_le_mul_of_nonneg_right (rneInt_nearest _ z) hp.le
+
+theorem rneQ_nearest_pos (x : ℚ) (hx : 0 < x) (n : Bool) (m : Nat) (e : ℤ) (hm : m < 9007199254740992) (he : -1074 ≤ e) :
+    |rneQ x - x| ≤ |sgnQ n * ((m : ℚ) * 2 ^ e) - x| := by
+  have hk1 : (2 : ℚ) ^ Int.log 2 x ≤ x := by exact_mod_cast Int.zpow_log_le_self (b := 2) (by norm_num) hx
+  by_cases hec : cexp x ≤ e
+  · -- the value lies on the grid
+    obtain ⟨j, hj⟩ := Int.eq_ofNat_of_zero_le (show 0 ≤ e - cexp x by omega)
+    have hsplit : (2 : ℚ) ^ e = 2 ^ j * 2 ^ cexp x := by rw [← zpow_natCast, zpow2_add]; congr 1; omega
+    have : sgnQ n * ((m : ℚ) * 2 ^ e) = (((if n then -1 else 1) * (m * 2 ^ j : ℤ) : ℤ) : ℚ) * 2 ^ cexp x := by
+      rw [hsplit]; cases n <;> simp [sgnQ] <;> ring
+    rw [this]
+    exact rneQ_nearest_grid x hx _
+  · -- below the grid's binade: 2^k (on the grid) is at least as close
+    have hc : cexp x = Int.log 2 x - 52 := by
+      have hlt : e < cexp x := by omega
+      unfold cexp at hlt ⊢
+      rw [abs_of_pos hx] at hlt ⊢
+      rcases max_cases (Int.log 2 x - 52) (-1074) with ⟨h, _⟩ | ⟨h, _⟩
+      · exact h
+      · rw [h] at hlt; omega
+    have hg := rneQ_nearest_grid x hx (4503599627370496 : ℤ)
+    have e52 : (((4503599627370496 : ℤ)) : ℚ) * 2 ^ cexp x = 2 ^ Int.log 2 x := by
+      have : (((4503599627370496 : ℤ)) : ℚ) = 2 ^ (52 : ℤ) := by norm_num
+      rw [this, zpow2_add, hc]; congr 1; ring
+    rw [e52] at hg
+    -- |d| < 2^k
+    have hd : (m : ℚ) * 2 ^ e < 2 ^ Int.log 2 x := by
+      have hm' : (m : ℚ) < 2 ^ (53 : ℤ) := by
+        have : (m : ℚ) < ((9007199254740992 : Nat) : ℚ) := by exact_mod_cast hm
+        norm_num at this ⊢; exact this
+      calc (m : ℚ) * 2 ^ e ≤ (m : ℚ) * 2 ^ (cexp x - 1) :=
+            mul_le_mul_of_nonneg_left (zpow2_mono (by omega)) (by positivity)
+        _ < 2 ^ (53 : ℤ) * 2 ^ (cexp x - 1) := mul_lt_mul_of_pos_right hm' (two_zpow_pos _)
+        _ = 2 ^ Int.log 2 x := by rw [zpow2_add, hc]; congr 1; ring
+    have hdle : sgnQ n * ((m : ℚ) * 2 ^ e) ≤ (m : ℚ) * 2 ^ e := by
+      have h0 : (0 : ℚ) ≤ (m : ℚ) * 2 ^ e := mul_nonneg (by positivity) (two_zpow_pos e).le
+      cases n <;> simp [sgnQ] <;> linarith
+    have : |(2 : ℚ) ^ Int.log 2 x - x| ≤ |sgnQ n * ((m : ℚ) * 2 ^ e) - x| := by
+      rw [abs_sub_comm, abs_of_nonneg (by linarith), abs_sub_comm (sgnQ n * _), abs_of_nonneg (by linarith)]
+      linarith
+    exact le_trans hg this
+
+/-- ★ the rounding is to *nearest*: no value `± m · 2^e` of the format (m < 2^53, e ≥ -1074; in particular no finite
+    binary64) is closer to `x` than `rneQ x` -/
+theorem rneQ_nearest (x : ℚ) (n : Bool) (m : Nat) (e : ℤ) (hm : m < 9007199254740992) (he : -1074 ≤ e) :
+    |rneQ x - x| ≤ |sgnQ n * ((m : ℚ) * 2 ^ e) - x| := by
+  rcases lt_trichotomy x 0 with hx | hx | hx
+  · have hy : 0 < -x := by linarith
+    have h := rneQ_nearest_pos (-x) hy (!n) m e hm he
+    have e1 : rneQ x = -rneQ (-x) := by
+      have := rneQ_neg_of_pos (-x) hy; rw [neg_neg] at this; rw [this]
+    have e2 : sgnQ (!n) = -sgnQ n := by cases n <;> simp [sgnQ]
+    rw [e1, show -rneQ (-x) - x = -(rneQ (-x) - -x) by ring, abs_neg]
+    rw [e2] at h
+    rw [show sgnQ n * ((m : ℚ) * 2 ^ e) - x = -(-sgnQ n * ((m : ℚ) * 2 ^ e) - -x) by ring, abs_neg]
+    exact h
+  · subst hx; rw [rneQ_zero]; simp only [sub_self, abs_zero]; exact abs_nonneg _
+  · exact rneQ_nearest_pos x hx n m e hm he
+
+theorem rneQ_nearest_binary64 (x : ℚ) (c : Nat) (hc : FinBits c) : |rneQ x - x| ≤ |valQ c - x| := by
+  obtain ⟨n, m, e, hd⟩ := hc
+  obtain ⟨hm, he, _⟩ := decode_fin_bounds c n m e hd
+  rw [valQ_of_decode c n m e hd]
+  exact rneQ_nearest x n m e hm he
+
 /-! ## NaN, infinities, zeros: the IEEE-754 rules as the instance has them -/
 
 theorem decode_nanBits : decode nanBits = .nan := by decide
